@@ -955,7 +955,24 @@ def judge(case, collect=None):
         detail = dict(oracle=truth, accepted=accepted, rejected_at_position=rej, k=k, end=tr_end,
                       problems=problems)
         # attribution through defect models: only an exact prediction attributes
-        if vals and not temporal and place != "top" and bitwise_verdict(
+        rv = None
+        if has_until(f) and b4_run(f, tr, True) == (accepted, rej):
+            # the full model of rv_ltl predicts this run exactly; which of its two deviations?
+            if b4_run(f, tr, False) == (accepted, rej) and until_with_temporal_rhs(f):
+                # the index range plays no role: Until decided on the first *currently* truthy
+                # position although an earlier one was only presumably false
+                rv = "until-with-temporal-rhs|as-rvltl-first-truthy-position"
+            elif until_under_temporal(f):
+                rv = "until-under-temporal|as-rvltl-until-index-range"
+        if place.startswith("dyn") and temporal and accepted and not cells:
+            fail(f"dynamic-require:{place}|temporal-require-never-monitored", tr=tr, **detail)
+            ignored += 1
+            if ignored >= 3:
+                flags.add("stopped-after-3-ignored")
+                break  # the requirement is not monitored at all: the other traces say the same
+        elif rv:
+            fail(rv, tr=tr, **detail)
+        elif vals and not temporal and place != "top" and bitwise_verdict(
                 f, {x: cell_value(vals, x, tr[0] >> ATOMS.index(x) & 1) for x in fatoms}) == \
                 ("accept" if accepted else "reject"):
             fail("nonbool-atoms:runtime-and-or|as-bitwise-and-or", tr=tr, **detail)
@@ -966,22 +983,6 @@ def judge(case, collect=None):
             fail(f"nonbool-atoms:None|{problems[0]}", tr=tr, **detail)
         elif vals:
             fail(f"nonbool-atoms:{cell}|{problems[0]}", tr=tr, **detail)
-        elif place.startswith("dyn") and temporal and accepted and not cells:
-            fail(f"dynamic-require:{place}|temporal-require-never-monitored", tr=tr, **detail)
-            ignored += 1
-            if ignored >= 3:
-                flags.add("stopped-after-3-ignored")
-                break  # the requirement is not monitored at all: the other traces say the same
-        elif has_until(f) and b4_run(f, tr, True) == (accepted, rej):
-            # the full model of rv_ltl predicts this run exactly; which of its two deviations?
-            if b4_run(f, tr, False) == (accepted, rej) and until_with_temporal_rhs(f):
-                # the index range plays no role: Until decided on the first *currently* truthy
-                # position although an earlier one was only presumably false
-                fail("until-with-temporal-rhs|as-rvltl-first-truthy-position", tr=tr, **detail)
-            elif until_under_temporal(f):
-                fail("until-under-temporal|as-rvltl-until-index-range", tr=tr, **detail)
-            else:
-                fail(f"{cell}|{problems[0]}", tr=tr, **detail)
         else:
             fail(f"{cell}|{problems[0]}", tr=tr, **detail)
     out.cls(*sorted(flags))
